@@ -40,7 +40,7 @@ type c19session struct {
 }
 
 func transcriptLine(o *app.Obs) string {
-	return fmt.Sprintf("cont=%v exec=%s flush=%s panic=%v out=%q", o.Cont, app.ErrClass(o.ExecErr), app.ErrClass(o.FlushErr), o.Panic != "", o.Out)
+	return fmt.Sprintf("cont=%v exec=%s flush=%s finish=%s panic=%v out=%q", o.Cont, app.ErrClass(o.ExecErr), app.ErrClass(o.FlushErr), app.ErrClass(o.FinishErr), o.Panic != "", o.Out)
 }
 
 var c19Switches int64
@@ -258,6 +258,9 @@ func c19Build(seed uint64, i int) *c19round {
 		// state.FlagDebugger registry in every state string, engine.SimpleDebug after every execution)
 		cfg.Debug = i%3 == 2
 		cfg.StoreSession = (i/8)%2 == 1 // the session is also selected on the store handle (db.SetSession)
+		// the external functions keep notes in the session's store handle and, on the filesystem store, list them:
+		// listings of one session run while other sessions write into the same directory
+		cfg.FuncUsesStore = (i/4)%2 == 0
 		h := a.History(r, r.Range(3, 14))
 		for x := range h {
 			if x > 0 && r.Chance(1, 12) {
